@@ -5,7 +5,7 @@ Events : <class>/<interface>/<glib:boxed>/<record glib:is-gtype-struct-for>/<pro
          fake introspection binary that hands over the prepared dump -> MainTransformer -> IntrospectablePass -> GIRWriter).
 Oracle : reference derived from the generated model (scanned declarations + dump), following the property statement.
 """
-import collections
+import collections, os, re
 from .. import core, girx, apigen, objgen
 
 _st = {}
@@ -300,6 +300,27 @@ def run(args):
     n = int((300 if args.tier == 'quick' else 15000) * args.scale)
     cases = [(args.seed, i) for i in range(n)]
     cases = core.replay_cases(args, cases)
+    # trusted-base monitor: the synthetic dumps must speak the vocabulary of the real producer (girepository/gdump.c of the
+    # tree under test); if the producer's format changes, this check says so instead of silently testing an outdated format
+    try:
+        gd = open(os.path.join(core.REPO, 'girepository', 'gdump.c'), encoding='utf-8').read()
+        prod_el = set(re.findall(r'<([a-z][a-z:-]*)[ >/\\]', ' '.join(re.findall(r'"((?:[^"\\]|\\.)*)"', gd))))
+        prod_at = set(re.findall(r' ([a-z][a-z_-]*)=\\"', gd))
+        gen_el, gen_at = set(), set()
+        for i in range(60):
+            m = objgen.gen_objlib(core.rng_for(args.seed, 'c12vocab', i))
+            _, dump = objgen.render_objlib(m, core.rng_for(args.seed, 'c12vocab2', i))
+            gen_el |= set(re.findall(r'<([a-z][a-z:-]*)[ >/]', dump))
+            gen_at |= set(re.findall(r' ([a-z][a-z_-]*)=["\']', dump))
+        gen_el -= {'dump'}
+        chk.extra['dump_vocabulary'] = {'producer_elements': sorted(prod_el), 'producer_attributes': sorted(prod_at),
+                                        'generated_elements': sorted(gen_el), 'generated_attributes': sorted(gen_at),
+                                        'producer_only': sorted((prod_el | prod_at) - (gen_el | gen_at))}
+        chk.require(gen_el <= prod_el and gen_at <= prod_at,
+                    'the dump generator emits %r which girepository/gdump.c does not write' % sorted((gen_el - prod_el) | (gen_at - prod_at)))
+        chk.monitor_hits['dump_vocabulary_checked'] += len(gen_el) + len(gen_at)
+    except OSError as e:
+        chk.require(False, 'cannot read gdump.c: %s' % e)
     B = 6
     batches = [cases[k:k + B] for k in range(0, len(cases), B)]
     harness = []
